@@ -524,3 +524,63 @@ def exactly_lightlike_vertices(tier, rng, rep):
                 rep.case(key=(t, kind, qname), nontrivial=True, sample=inp if (t, kind, qname) == (0, "Ray", "coords_hyperboloid") else None)
                 if len(rep.failures) >= 3:
                     return
+
+
+@bounded(P, "sub_polygons_by_indexing", functions=["geometry_tools/projective.py:ProjectiveObject.__getitem__", "geometry_tools/projective.py:Polygon._compute_aux_data", "geometry_tools/projective.py:Polygon.get_edges"],
+         note="indexing a polygon (or a composite of polygons) with keys that reach the vertex axis - slices, strides, reversed, index lists, Ellipsis - gives a polygon on the selected "
+              "vertices whose stored edges run from vertex i to vertex i+1 (cyclically), also after a further reshape / index")
+def sub_polygons_by_indexing(tier, rng, rep):
+    N = 60 if tier == 'thorough' else 12
+    rep.rule = ("projective and hyperbolic polygons with 5..7 vertices, composite shapes (), (2,), (2,2); keys on the vertex axis: [1:4], [::2], [::-1], [[0,2,3]], [1:], (Ellipsis, [0,1,3,4], :), "
+                "composite keys combined with them ((1, ::-1), (:, 1:4), ...); edges compared projectively with consecutive selected vertices in the stored data and through get_edges()")
+    rep.bound = f"{N} polygons x 2 classes x 3 shapes x ~9 keys"
+
+    def edges_msg(Q):
+        p = np.asarray(Q.proj_data, dtype=float)
+        nv = p.shape[-2]
+        want = np.stack([p, np.roll(p, -1, axis=-2)], axis=-2)
+        for nm, have in (("stored derived data", Q.aux_data), ("get_edges()", Q.get_edges().proj_data)):
+            have = np.asarray(have, dtype=float)
+            if have.shape[:-2] != want.shape[:-2] or have.shape[-1] != want.shape[-1]:
+                return f"{nm}: shape {have.shape} for {nv} vertices of shape {p.shape}"
+            have = have[..., :2, :]
+            m = have[..., :, None] * want[..., None, :]
+            if not np.all(np.isfinite(have)) or not np.all(np.abs(m - np.swapaxes(m, -1, -2)) <= 1e-7 * max(1.0, np.max(np.abs(m)))):
+                return f"{nm}: an edge does not run from its vertex to the next selected vertex"
+        return None
+    vkeys = {"1:4": slice(1, 4), "::2": slice(None, None, 2), "::-1": slice(None, None, -1), "[0,2,3]": [0, 2, 3], "1:": slice(1, None), "[4,1,0,2]": [4, 1, 0, 2]}
+    for t in range(N):
+        nv = 5 + t % 3
+        for cls in ("ProjPolygon", "HypPolygon"):
+            for shape in ((), (2,), (2, 2)):
+                if cls == "ProjPolygon":
+                    P_ = pr.Polygon(rng.normal(size=shape + (nv, 3)))
+                else:
+                    v = rng.normal(size=shape + (nv, 2))
+                    P_ = h.Polygon(h.Point(v / np.linalg.norm(v, axis=-1, keepdims=True) * rng.uniform(0.1, 0.9, size=shape + (nv, 1)), model="klein"))
+                keys = {nm: (slice(None),) * len(shape) + (k,) for nm, k in vkeys.items()}
+                keys["(..., [0,1,3,4], :)"] = (Ellipsis, [0, 1, 3, 4], slice(None))
+                if shape:
+                    keys["(1, ::-1)"] = (1,) + (slice(None),) * (len(shape) - 1) + (slice(None, None, -1),)
+                    keys["(::-1 composite, 1:4)"] = (slice(None, None, -1),) + (slice(None),) * (len(shape) - 1) + (slice(1, 4),)
+                for kname, key in keys.items():
+                    inp = {"class": cls, "shape": list(shape), "vertices": nv, "key": kname, "proj_data": np.asarray(P_.proj_data).tolist()}
+
+                    def body():
+                        Q = P_[key]
+                        want = np.asarray(P_.proj_data)[key] if key[0] is not Ellipsis else np.asarray(P_.proj_data)[key]
+                        if np.asarray(Q.proj_data).shape != want.shape or not np.array_equal(np.asarray(Q.proj_data), want):
+                            rep.fail("indexing_selects_the_vertices", f"key {kname}", inp); return
+                        msg = edges_msg(Q)
+                        if msg is None and Q.shape:
+                            msg = edges_msg(Q.flatten_to_unit())
+                            msg = msg or edges_msg(Q[0])
+                        if msg:
+                            rep.fail("aux_coherent_after_history", f"{cls}{list(shape)}[{kname}]: {msg}", inp)
+                        m0 = edges_msg(P_)
+                        if m0:
+                            rep.fail("aux_coherent_after_history", f"the indexed polygon itself after [{kname}]: {m0}", inp)
+                    rep.attempt("history_runs", inp, body)
+                    rep.case(key=(t, cls, shape, kname), nontrivial=True, sample=inp if (t, cls, shape, kname) == (0, "HypPolygon", (2,), "1:4") else None)
+                    if len(rep.failures) >= 3:
+                        return
